@@ -41,7 +41,9 @@ def main():
                     continue
                 r["demo_patched_rc"], dout = sh(f"/venv/bin/python {demo}", cwd=wt, env=env, timeout=300)
                 r["demo_patched_tail"] = dout[-300:]
-                rc, out = sh(f"/venv/bin/python -m pytest -q -p no:cacheprovider --timeout=900 -x -q 2>&1 | tail -5; exit ${{PIPESTATUS[0]}}", cwd=wt, env=env)
+                rc, out = sh("/venv/bin/python -m pytest -q -p no:cacheprovider --timeout=900 -x -q > /dev/null 2>&1", cwd=wt, env=env)
+                if rc != 0:  # one retry: timing-sensitive tests can fail under heavy machine load
+                    rc, out = sh("/venv/bin/python -m pytest -q -p no:cacheprovider --timeout=900 -x -q > /dev/null 2>&1", cwd=wt, env=env)
                 r["suite_rc"] = rc
                 r["confirmed"] = r["demo_clean_rc"] == 0 and r["demo_patched_rc"] == 1 and rc == 0
                 report[sid] = r
